@@ -380,6 +380,9 @@ RULE = ("markers: every 0/1 marker vector of length 1..12 (8190), each run with 
         "segmentation - some tested value equals its threshold, or is NaN, or AND and OR modes disagree on some row. "
         "Distinct = hash of the case.")
 
+# coverage-guided stage of the thorough tier (vt/fuzz.py): sub-check -> libFuzzer executions
+FUZZ = {'seg_random': 10000}
+
 SUBCHECKS = [
     SubCheck("markers", body_markers, enum=enum_markers, rule="all 2^n marker vectors, n=1..12", qshards=8),
     SubCheck("split_random", body_split, strategy=strat_split, quick=3000, thorough=48000, qshards=6),
